@@ -291,6 +291,24 @@ def silent_node_scenario(sid, rng, after, role="slave"):
     return {"id": sid, "role": "", "steps": steps}
 
 
+def dark_probe_scenario(sid, rng, dark=("n2", "n3", "r3", "r4"), pre=8, post=24):
+    """Some nodes stop answering while their connections stay open (a wedged redis): topology probes sent to them are
+    never answered.  The proxy keeps asking others: a replica that joins afterwards is adopted and gets its share of the
+    reads.  (The probe target is drawn at random, hence many probe rounds; only the last one is judged.)"""
+    cat = {c[0]: c for c in catalogue()}
+    steps = [step([st(op="topo", desc=default_desc(), kind=""), st(op="refresh")]),
+             step([st(op="npause", n=n) for n in dark])]
+    steps += [step([st(op="refresh", count=1)]) for _ in range(pre)]
+    steps.append(step([st(op="topo", desc=cat["new-replica-healthy"][1], kind="")]))
+    steps += [step([st(op="refresh", count=1)]) for _ in range(post)]
+    # (judged while the nodes are still dark: by now a probe has reached a live node and the next tick has adopted its reply)
+    steps.append(step([st(op="refresh")]))
+    steps += spread_scenario("x", "reads", (0, 5460), 240, rng)["steps"][1:]
+    steps.append(step([st(op="nresume", n=n) for n in dark]))
+    steps += drain(1, 40)
+    return {"id": sid, "role": "", "steps": steps}
+
+
 def spread_scenario(sid, pattern, master_range, n, rng, order="", repl=REPL):
     lo, hi = master_range
     steps = [step([st(op="topo", desc=reorder(default_desc(repl), order, rng), kind=""), st(op="refresh")])]
@@ -501,6 +519,7 @@ def run_generic(pid, tier, seed):
                     sil += [silent_node_scenario("silent-new-replica-2", rng, ["reply-err", "node-removed"]),
                             silent_node_scenario("silent-new-replica-3", rng, ["role-swap"])]
                 groups.append((dict(CFG), sil, "silent", {}))
+                groups.append((dict(CFG), [dark_probe_scenario("dark-probe-%d" % k, rng) for k in range(1 if q else 3)], "dark", {}))
             if pid == "C14" and q:
                 # (quick tier: conformance with RcTopo for a part of the ordinary scenarios and all forced interleavings)
                 groups.append((dict(CFG), scs[:45], "topo", {}))
@@ -556,6 +575,8 @@ def run_generic(pid, tier, seed):
                     spread_scenario("x", "reads" if k % 2 == 0 else "set-get", (0, 5460), 240, rng)["steps"][1:]
                 sw.append(sc)
             groups.append((dict(CFG), sw, "swap", {}))
+            # nodes that swallow topology probes (wedged, connections open), then a replica joins
+            groups.append((dict(CFG), [dark_probe_scenario("dark-probe-%d" % k, rng) for k in range(1 if q else 4)], "dark", {}))
             groups.append((dict(CFG, conns=2), blips, "blip2", {}))
             groups.append((dict(CFG), blips[:2 if q else 6], "blip1", {}))
         viol, other = [], {}
